@@ -291,7 +291,7 @@ func init() {
 		c.x.enc.DeclFun("intStr", []string{"Int"}, "Bytes")
 		return c.ret(TV{T: app("intStr", c.t(0)), Ty: tString})
 	})
-	reg("(github.com/initia-labs/OPinit/x/ophost/types.BatchInfo_ChainType).StringWithoutPrefix", "event-attribute formatting helper abstracted as a pure function of the enum value", func(c *CallCtx) []Outcome {
+	reg("(github.com/initia-labs/OPinit/x/ophost/types.BatchInfo_ChainType).StringWithoutPrefix", "event-attribute formatting helper abstracted as a total pure function of the enum value (A-ENUMSTR: the real body cy.String()[len(prefix):] panics with slice bounds out of range for a value outside BatchInfo_ChainType_name, e.g. 7 -> \"7\"[11:]; reachable through MsgUpdateBatchInfo, whose Validate rejects only UNSPECIFIED; the panic aborts the transaction (A-TX) and is not modelled)", func(c *CallCtx) []Outcome {
 		c.x.enc.DeclFun("chainTypeStr", []string{"Int"}, "Bytes")
 		return c.ret(TV{T: app("chainTypeStr", c.t(0)), Ty: tString})
 	})
